@@ -114,7 +114,32 @@ def check_case(case):
                 and inf["has_load_node"]}
     total, ref, single, load_head, n = check_cp(kernel, dg, nodes_lat, edges, loadnode,
                                                 case.get("first_line", 0), case["isa"])
+    # the CP column of the combined view marks exactly the critical-path lines with their CP latencies (a member
+    # contributing 0 cycles is still a member), and the summary row shows their sum
+    from lib import report
+    from osaca.frontend import Frontend
+    fe = Frontend.__new__(Frontend)
+    fe._machine_model, fe._arch, fe._filename = mm, "syn", "x"
+    cp_k = guard(dg.get_critical_path, what="get_critical_path")
+    text = guard(fe.combined_view, kernel, cp_k, guard(dg.get_loopcarried_dependencies, what="lcd"), True,
+                 what="combined_view")
+    try:
+        rep = report.parse(text)
+    except report.ReportError as e:
+        raise Violation("report-format", "combined view cannot be parsed back: %s" % e, text[-400:], None)
+    fl = case.get("first_line", 0)
+    marked = {l["lineno"] - fl - 1: float(l["cp"]) for l in rep["lines"] if l["cp"] != ""}
+    want = {x.line_number - fl - 1: float(x.latency_cp) for x in cp_k}
+    if marked != want:
+        zero = any(v == 0.0 for v in want.values())
+        raise Violation("cp-column:%s%s" % (case["isa"], ":zero-latency-member" if zero else ""),
+                        "the CP column does not mark exactly the critical-path lines with their latencies",
+                        {str(k): v for k, v in sorted(marked.items())}, {str(k): v for k, v in sorted(want.items())})
+    if rep["summary"] is not None and abs(float(rep["summary"]["cp"]) - total) > 1e-9:
+        raise Violation("cp-summary-row:" + case["isa"], "CP figure of the summary row", rep["summary"]["cp"], total)
     cl = [case["isa"]]
+    if any(v == 0.0 for v in want.values()) and len(want) > 1:
+        cl.append("cp-has-zero-latency-member")
     if load_head:
         cl.append("chain-starts-at-load-stage")
     if not E:
